@@ -257,7 +257,7 @@ pub fn install_panic_recorder() {
         }
         // generic parameters and closure markers are dropped
         // `<T as Trait>::f` keeps its first level, deeper generic arguments are dropped
-        let keep = if func.starts_with('<') { 1 } else { 0 };
+        let keep = 1;
         let mut f2 = String::new(); let mut depth = 0;
         for ch in func.chars() { match ch { '<' => { depth += 1; if depth <= keep { f2.push(ch); } } '>' => { if depth <= keep && depth > 0 { f2.push(ch); } if depth > 0 { depth -= 1; } } _ => if depth <= keep { f2.push(ch); } } }
         let f2 = f2.replace("::{{closure}}", "").replace("::{closure#0}", "").replace("::{closure#1}", "").replace("::{closure#2}", "");
